@@ -19,7 +19,7 @@ svdriver_c05: line protocol for the two TOC interpreters (`SV.Toc.memTree`, `SV.
   chunk <store> <L> <path> <offset>    -> <chunkOffset> <chunkSize> <digest> | none
   tocspan <store> <L> <compr> <jsonLen> <trailing> -> whole | json | unspec
   clone <store> <L>                     -> same | closed    (a Clone serves the tree of its origin)
-  spec <L>                              -> conf | nonconf   (decides `SpecConforming`, the fragment of the theorems)
+  spec <L>                              -> conf | nonconf   (decides `SpecConformingR`, the fragment of the theorems)
 -/
 namespace SV.Driver.C05
 open SV.Driver SV.Toc
@@ -172,7 +172,7 @@ def step (s : St) : List String → St × String
   | ["spec", l] =>
     match lookupS l s.tocs with
     | none => (s, "bad-op")
-    | some res => (s, if decide (SpecConforming res.reverse) then "conf" else "nonconf")
+    | some res => (s, if decide (SpecConformingR res.reverse) then "conf" else "nonconf")
   | ["close", store, l] =>
     -- memory.reader.Close is a no-op; db.reader.Close deletes the layer's bucket
     if store = "mem" then (s, "ok")
